@@ -154,12 +154,21 @@ func (ex *Explorer) Liveness() {
 				i, st, _, _ := StepCursor(ro)
 				desc = fmt.Sprintf("phase=%s reason=%s step=%d state=%s", ro.Status.Phase, progressingReason(ro), i, st)
 			}
+			// where and for which kind of workload the release hangs is part of the signature
+			where := "/" + ex.Cfg.Sc.Kind + "-" + ex.Cfg.Sc.Style
+			if ex.Cfg.Sc.Traffic != "" {
+				where += "+" + ex.Cfg.Sc.Traffic
+			}
+			if ro != nil {
+				_, st, _, _ := StepCursor(ro)
+				where += "/" + progressingReason(ro) + "-" + st
+			}
 			if !hasOut {
-				x.Violate("C07/wakeup/stuck-without-pending-wakeup", "no reconcile is queued, no timer is pending and the environment has converged, but the rollout is not finished ("+desc+"): it waits for a wake-up that will not come")
+				x.Violate("C07/wakeup/stuck-without-pending-wakeup"+where, "no reconcile is queued, no timer is pending and the environment has converged, but the rollout is not finished ("+desc+"): it waits for a wake-up that will not come")
 			} else if wrote[c] != "" {
-				x.Violate("C07/oscillate/writes-in-a-cycle", fmt.Sprintf("the rollout can loop forever through %d states without finishing (%s); the cycle contains the store-changing transition %s", size[c], desc, wrote[c]))
+				x.Violate("C07/oscillate/writes-in-a-cycle"+where, fmt.Sprintf("the rollout can loop forever through %d states without finishing (%s); the cycle contains the store-changing transition %s", size[c], desc, wrote[c]))
 			} else {
-				x.Violate("C07/scc/never-finishes", fmt.Sprintf("the rollout can loop forever through %d states without finishing (%s)", size[c], desc))
+				x.Violate("C07/scc/never-finishes"+where, fmt.Sprintf("the rollout can loop forever through %d states without finishing (%s)", size[c], desc))
 			}
 		} else {
 			ex.Terminals[kind]++
